@@ -1,5 +1,6 @@
 import PydapModel.Sexp
 import PydapModel.DasText
+import PydapModel.DasForeign
 namespace Pydap.Driver
 open Pydap Sexp Pydap.Das
 
@@ -42,6 +43,14 @@ def dasDataset? : Sexp → Option Dataset
     pure ⟨← dasText? n, ← dasDict? attrs, ← cs.mapM dasVar?⟩
   | _ => none
 
+partial def dasFItem? : Sexp → Option FItem
+  | list [atom "fa", ty, n, list vals, w1, w2, sep, w3] => do
+    pure (FItem.attr (← dasText? ty) (← dasText? n) (← vals.mapM dasScalar?) (← dasText? w1) (← dasText? w2)
+      (← dasText? sep) (← dasText? w3))
+  | list [atom "fc", n, list its, w1, w2, w3] => do
+    pure (FItem.cont (← dasText? n) (← its.mapM dasFItem?) (← dasText? w1) (← dasText? w2) (← dasText? w3))
+  | _ => none
+
 def dasScalarOut : Scalar → String
   | .str s => "(s " ++ dasHex s ++ ")"
   | .num t f => "(n " ++ dasHex t ++ (if f then " f)" else " i)")
@@ -65,8 +74,7 @@ def dasAttachedOut : Except AErr Attached → String
 def handleDasText : List Sexp → Option String
   | [atom "das-print", ds] => do
     let ds ← dasDataset? ds
-    if attrsPrintable ds.attrs && varsPrintable ds.children then pure ("t:" ++ dasHex (dasText ds))
-    else pure "(err IndexError)"
+    pure ("t:" ++ dasHex (dasText ds))
   | [atom "das-parse", t] => do
     let t ← dasText? t
     match dasParse t with
@@ -79,6 +87,9 @@ def handleDasText : List Sexp → Option String
     match dasParse t with
     | .error _ => pure "(err parse)"
     | .ok d => pure (dasAttachedOut (addAttributes n cs d))
+  | [atom "das-fprint", kw, w0, w1, list its, trail] => do
+    let its ← its.mapM dasFItem?
+    pure ("t:" ++ dasHex (ftext (← dasText? kw) (← dasText? w0) (← dasText? w1) its (← dasText? trail)))
   | [atom "das-roundtrip", ds] => do
     let ds ← dasDataset? ds
     match roundTrip ds with
